@@ -385,6 +385,10 @@ def work_class(args):
         if i > 0:
             cases.append((f"pair:{defs[0].attr_name}+{d.attr_name}",
                           {defs[0].attr_name: b.spec_for(cls, defs[0], 1, 0, 1), d.attr_name: b.spec_for(cls, d, 1, 1, 1)}, ()))
+        if tier == "thorough" and len(defs) <= 80:
+            for j in range(1, i):
+                cases.append((f"pair:{defs[j].attr_name}+{d.attr_name}",
+                              {defs[j].attr_name: b.spec_for(cls, defs[j], 1, 2, 2), d.attr_name: b.spec_for(cls, d, 1, 1, 3)}, ()))
     alls = b.full_spec(cls, 4 if tier == "thorough" else 3, 0)
     cases.append(("all", alls, ()))
     if has_extra:
